@@ -41,8 +41,8 @@ def run(c):
         "statement captures are compared with the model only (the documentation speaks about expressions)",
     ]
 
-    build_own_theories(c, "Base/Outcome.v", "Filters/FilterIR.v", "Filters/FilterAlgebra.v", "Filters/Predicates.v", "Filters/FilterEval.v", "Filters/ExprFacts.v", "Filters/FileFacts.v")
-    c.require_theories("Base/Outcome.v", "Filters/FilterIR.v", "Filters/FilterAlgebra.v", "Filters/Predicates.v", "Filters/FilterEval.v", "Filters/ExprFacts.v", "Filters/FileFacts.v")
+    build_own_theories(c, "Base/Outcome.v", "Filters/FilterIR.v", "Filters/FilterAlgebra.v", "Filters/Predicates.v", "Filters/FilterEval.v", "Filters/ExprFacts.v", "Filters/FileFacts.v", "Filters/ValueSources.v")
+    c.require_theories("Base/Outcome.v", "Filters/FilterIR.v", "Filters/FilterAlgebra.v", "Filters/Predicates.v", "Filters/FilterEval.v", "Filters/ExprFacts.v", "Filters/FileFacts.v", "Filters/ValueSources.v")
 
     # ---- P
     gen_ok = False
@@ -58,6 +58,7 @@ def run(c):
         for m in re.finditer(r'\("(make[\w/]+)", \{\| ci_list := (true|false)', open(os.path.join(c.gen, "Gen_FilterPreds.v")).read()):
             lifted[m.group(1)] = m.group(2) == "true"
 
+    c.log("obligations done")
     hb = c.build_harness("c02")
     if hb is None:
         return c.finish()
@@ -165,8 +166,67 @@ def run(c):
                    observed=r["obs"][int(b)]["verdict"])
         c.coverage["imports_model_cases"] = c.coverage.get("imports_model_cases", 0) + len(irules) * len(files)
 
+    def cstr_nl(s):
+        for ch in s:
+            if (ord(ch) < 32 and ch not in "\n\t") or ord(ch) > 126:
+                raise ValueError("non printable in %r" % s)
+        return '"' + s.replace('"', '""') + '"'
+
+    def compare_edge_text(rules, alias):
+        """K for the Text of a capture: RG.Filters.ValueSources.node_text over the file's bytes, the capture's extent and what
+        go/printer prints for it, compared with `Text == c` verdicts of the edge family (captures that end at the last byte of
+        their file, files with unusual byte layouts)."""
+        files = model_in.get(("edgefiles", alias)) or []
+        erules = [r for r in rules if r["kind"] == "edge" and r["name"].startswith("Text:EQL") and not (r.get("load_err") or r.get("panic"))]
+        if not gen_ok or not files or not erules:
+            return
+        usable = {f["index"] for f in files if f.get("ascii")}
+        cases, seen = [], set()
+        for r in erules:
+            for o in r["obs"]:
+                fi, a, b = o["ext"]
+                key = (fi, a, b, r["const"])
+                if fi not in usable or key in seen:
+                    continue
+                try:
+                    row = "(%d%%nat, %d%%nat, %d%%nat, %s, %s, %s)" % (fi, a, b, cstr_nl(o.get("printed", "")), cstr_nl(r["const"]), coq_bool(o["verdict"]))
+                except ValueError:
+                    continue
+                seen.add(key)
+                cases.append((row, r, o))
+        if not cases:
+            return
+        byidx = {f["index"]: f for f in files}
+        n = max(byidx) + 1
+        src = ["From Coq Require Import List Bool String Arith.", "From RG.Filters Require Import FilterIR ValueSources.",
+               "Import ListNotations. Local Open Scope string_scope."]
+        for i in range(n):
+            src.append("Definition file%d : string := %s." % (i, byidx[i]["coq"] if i in usable else '""'))
+        src.append("Definition files : list string := [%s]." % "; ".join("file%d" % i for i in range(n)))
+        src.append("Definition cases : list (nat * nat * nat * string * string * bool) := [")
+        src.append(";\n".join(row for row, _, _ in cases) + "].")
+        src.append("Definition agrees (x : nat * nat * nat * string * string * bool) : bool := match x with (f, a, b, p, k, v) => "
+                   "Bool.eqb (String.eqb (node_text (nth f files \"\") {| tn_from := a; tn_to := b; tn_printed := p |}) k) v end.")
+        src.append("Definition RES := Eval vm_compute in map fst (filter (fun x => negb (agrees (snd x))) (combine (seq 0 (List.length cases)) cases)).")
+        src.append("Print RES.")
+        ok, out = c.coq_eval("EdgeText_%s.v" % alias, "\n".join(src), timeout=600)
+        if not ok:
+            c.obligation("coq-eval:EdgeText_%s.v" % alias, False, out[-2000:])
+            return
+        m = re.search(r"RES\s*=\s*(.*?)\s*:\s*list nat", out, re.S)
+        if not m:
+            c.obligation("coq-eval-parse:EdgeText_%s.v" % alias, False, out[-2000:])
+            return
+        for x in re.findall(r"\d+", m.group(1)):
+            _, r, o = cases[int(x)]
+            c.fail("corr", "verdict of `Text == c` differs from the model's node_text (the bytes of the capture's extent when it lies inside the readable file) compared with c",
+                   input={"where": r["src"], "pattern": r["pattern"], "site": o["site"], "printed_form": o.get("printed", "")}, observed=o["verdict"])
+        c.coverage["edge_text_model_cases"] = c.coverage.get("edge_text_model_cases", 0) + len(cases)
+
     def observe(alias, only=None):
         args = ["-tmp", os.path.join(c.work, "tmp")]
+        if alias == "0":
+            args += ["-edges"]     # Text on captures at the edges of files: the text of a capture does not depend on the alias mode
         if only:
             args += ["-only", only]
         rc, out = c.run_harness(hb, args, timeout=1200, env={"GODEBUG": "gotypesalias=%s" % alias})
@@ -175,6 +235,7 @@ def run(c):
             c.obligation("harness-run:c02(gotypesalias=%s)" % alias, False, out[-3000:])
         model_in[alias] = ([json.loads(l) for l in out.splitlines() if l.startswith('{') and '"k":"gexpr"' in l],
                            [json.loads(l) for l in out.splitlines() if l.startswith('{') and '"k":"gsink"' in l])
+        model_in[("edgefiles", alias)] = [json.loads(l) for l in out.splitlines() if l.startswith('{') and '"k":"edgefile"' in l]
         model_in[("impfiles", alias)] = [json.loads(l) for l in out.splitlines() if l.startswith('{"index"') or (l.startswith('{') and '"k":"impfile"' in l)]
         return rules
 
@@ -251,7 +312,7 @@ def run(c):
                            "analysed from memory with nothing saved at its path)" % r["name"], input=site,
                            expected={"as on the saved file": o["verdict"]}, observed={"in memory": o["detached"]})
                 # K tuple
-                if r["kind"] in ("list", "tail", "stmt", "single", "first", "second", "seq", "pair", "file", "imports", "dollar") and ctor in lifted:
+                if r["kind"] in ("list", "tail", "stmt", "single", "first", "second", "seq", "pair", "file", "imports", "dollar", "edge") and ctor in lifted:
                     shape = {"one": 0, "exprstmt": 1, "stmt": 2, "list": 3}.get(o["shape"])
                     if shape is None or 2 in o["facts"]:
                         continue
@@ -306,9 +367,12 @@ def run(c):
 
     for alias in ("0", "1"):
         rules = observe(alias)
+        c.log("observed %d rules (gotypesalias=%s)" % (len(rules), alias))
         compare(rules, alias)
         compare_helpers(rules, alias)
         compare_imports(rules, alias)
+        compare_edge_text(rules, alias)
+        c.log("compared (gotypesalias=%s)" % alias)
     missing = {k: sorted(set(LIST_CLASSES) - v) for k, v in list_cov.items() if set(LIST_CLASSES) - v}
     for k in sorted(k for k, v in lifted.items() if v and k not in list_cov):
         missing[k] = list(LIST_CLASSES)
